@@ -39,7 +39,7 @@ PROBES = ["earlier_killed", "earlier_io_error", "earlier_clean", "debris_spill_f
           "debris_partial_result", "debris_header_only", "debris_unreadable_parquet", "same_data", "other_data",
           "other_format", "multi_history", "cli", "cli_tsv_leftover", "observed_workers>1", "torn_write",
           "debris_zero_length", "prefix_or_root_differs", "observed_rows_multiple_of_chunk", "rollup_tool", "rollup_same_dir", "earlier_rollup_had_other_inputs", "rollup_outputs_match_input_pattern",
-          "several_collections_with_prefixes", "unlink_refused"]
+          "several_collections_with_prefixes", "unlink_refused", "observed_protein_level", "earlier_protein_level"]
 RULE = (
     "Histories in one destination directory. Family 1 enumerates, for each grid cell (earlier chunk size x observed "
     "chunk size x same/other data x same/other format), EVERY mutation call index of the earlier assign_confidence run "
@@ -108,6 +108,8 @@ def _run_desc(rng, tab, *, chunk, fmt, workers=1, prefix=None, file_root="", dec
         "fault": None,
         "seed": rng.getrandbits(31),
         "tag": tag,
+        # protein-level confidence as well (its level file is written by the picked-protein step, not by the level loop)
+        "fasta_seed": rng.getrandbits(16) if rng.random() < 0.35 else None,
     }
 
 
@@ -155,6 +157,8 @@ def _family1_cells(rng, n_cells):
         observed = _run_desc(rng, tab_o, chunk=ch_o, fmt=fmt_o, workers=rng.choice([1, 2, 4]), tag="obs")
         if same and rng.random() < 0.5:
             observed["score_seed"] = earlier["score_seed"]
+        if observed.get("fasta_seed") is not None and count_mutations(observed)[1].get("outcome") != "ok":
+            observed["fasta_seed"] = None  # protein level degenerate on this table: keep the enumeration informative
         cells.append((earlier, observed))
     return cells
 
@@ -463,6 +467,8 @@ def run_scenario(scn, workdir):
     probes["same_data" if same_data else "other_data"] = 1
     probes["other_format"] = int(any(e["format"] != scn["observed"]["format"] for e in scn["earlier"]))
     probes["multi_history"] = int(len(scn["earlier"]) > 1)
+    probes["observed_protein_level"] = int(scn["observed"].get("fasta_seed") is not None)
+    probes["earlier_protein_level"] = int(any(e.get("fasta_seed") is not None for e in scn["earlier"]))
     probes["several_collections_with_prefixes"] = int(len(scn["observed"]["tables"]) > 1)
     _c = (scn["observed"].get("knobs") or {}).get("CONFIDENCE_CHUNK_SIZE")
     probes["observed_rows_multiple_of_chunk"] = int(bool(_c) and _c < 10**8 and _n_rows(scn["observed"]["tables"][0]) % _c == 0)
@@ -656,6 +662,8 @@ def shrink_candidates(scn):
             c = clone(scn); c["earlier"][i]["format"] = "pin"; yield c
         if e.get("fault") and e["fault"]["kind"] != "kill_before":
             c = clone(scn); c["earlier"][i]["fault"] = {"at": e["fault"]["at"], "kind": "kill_before"}; yield c
+        if e.get("fasta_seed") is not None:
+            c = clone(scn); c["earlier"][i]["fasta_seed"] = None; yield c
         if e["tables"][0].get("level_cols"):
             c = clone(scn); c["earlier"][i]["tables"][0]["level_cols"] = []; yield c
         if e["tables"][0]["n_spectra"] > 45:
@@ -667,6 +675,8 @@ def shrink_candidates(scn):
         c = clone(scn); c["observed"]["format"] = "pin"; yield c
     for k in list(o.get("knobs") or {}):
         c = clone(scn); del c["observed"]["knobs"][k]; yield c
+    if o.get("fasta_seed") is not None:
+        c = clone(scn); c["observed"]["fasta_seed"] = None; yield c
     if o["tables"][0].get("level_cols"):
         c = clone(scn); c["observed"]["tables"][0]["level_cols"] = []; yield c
     if o["tables"][0]["n_spectra"] > 45:
